@@ -356,6 +356,8 @@ def conf_scope(lines):
             elif ty in ("dstdomain", "method"):
                 if any(v[0] in "\"'" for v in vals):
                     return "unmodelled"
+                if ty == "dstdomain" and any(v.startswith("..") for v in vals):
+                    return "unmodelled"      # C41's finding; refused by ACLDomainData::parse since squid commit 7fcae3a
             elif ty == "port":
                 if not all(port_token_ok(v) for v in vals):
                     return "ok"      # rejected by ACLIntRange::parse
